@@ -236,6 +236,11 @@ CORPUS = [
     ['-w', '4,0,0,0,0,0,5,.001', '-w', '4,0,0,5,0,3,5,.001', '--excitation-pulse=2', '--skin-effect-conductivity=5e7,1',
      '--skin-effect-conductivity=3e7,2', '--insulation-load=.004,2.5,1', '--insulation-load=.005,3,2',
      '--theta=0,10,2', '--phi=0,90,1'],
+    # several sources, one of them looking like the source used when no excitation option is given (1 V on absolute pulse 5)
+    ['-f', '14', '-w', '10,0,0,0,0,0,10,.001', '-w', '10,3,0,0,3,0,10,.001', '--excitation-pulse=5', '--excitation-voltage=1',
+     '--excitation-pulse=14', '--excitation-voltage=0+1j', '--theta=0,10,2', '--phi=0,90,1'],
+    ['-f', '14', '-w', '10,0,0,0,0,0,10,.001', '-w', '10,3,0,0,3,0,10,.001', '--excitation-pulse=14', '--excitation-voltage=2',
+     '--excitation-pulse=5', '--excitation-voltage=1', '--excitation-pulse=3,2', '--excitation-voltage=1', '--theta=0,10,2', '--phi=0,90,1'],
     # taper limits together with scaling of everything / of the tapered wire / of another wire
     ['-f', '7', '-w', '4,8,0,0,0,0,0,20,.002', '-w', '5,5,0,0,20,8,0,20,.002', '--taper-wire=4,3,0.4,4', '--geo-scale=2',
      '--excitation-pulse=1', '--theta=0,10,2', '--phi=0,90,1'],
